@@ -8,15 +8,16 @@ NAME="$1"; shift
 D=/verif/seeded/$NAME
 res=$(/verif/tools/try_patch.sh "$D/patch.diff" "$@" 2>&1)
 echo "$res" | grep -E "RESULT|does not|FAILS" | cut -c1-400
-python3 - "$D/meta.json" "$res" <<'PY'
+REPO_HEAD=$(git -C /repo rev-parse --short HEAD); VERIF_HEAD=$(git -C /verif rev-parse --short HEAD); DIRTY=$(git -C /verif status --porcelain framework | wc -l)
+python3 - "$D/meta.json" "$res" "$REPO_HEAD" "$VERIF_HEAD" "$DIRTY" <<'PY'
 import json,sys
-dst,res=sys.argv[1:3]
+dst,res,repo_head,verif_head,dirty=sys.argv[1:6]
 m=json.load(open(dst))
 det={}
 for line in res.splitlines():
     if line.startswith('RESULT'):
         parts=dict(kv.split('=',1) for kv in line.split(' :: ')[0].split()[1:])
-        det[parts['check']]={'tier':parts.get('tier'),'exit':int(parts['exit']),'violations':int(parts['violations']),'signatures':line.split(' :: ',1)[1].strip() if ' :: ' in line else ''}
+        det[parts['check']]={'repo_head':repo_head,'verif_head':verif_head,'framework_uncommitted_files':int(dirty),'tier':parts.get('tier'),'exit':int(parts['exit']),'violations':int(parts['violations']),'signatures':line.split(' :: ',1)[1].strip() if ' :: ' in line else ''}
 if not m.get('detected_by') and 'checks_run_before_strengthening' not in m:
     m['checks_run_before_strengthening']=m.get('checks_run',{})
 cr=m.get('checks_run',{})
